@@ -1,4 +1,4 @@
-(* C13 — two subscripted forms that the class-level syntax of Class/Syntax.v cannot express:
+(* C13 — two subscripted forms next to the class-level syntax of Class/Syntax.v:
 
      class Repo(Repository[User]): ...          a parametrised base class
      field: typing.List[User]                   a generic whose container is written through its module
@@ -6,37 +6,29 @@
    Both reach cbo.go as a parser.Node of type Subscript (the second one because tree-sitter has a
    generic_type node only for  identifier[...]; anything else in a type position is an expression).
    MODEL of what cbo.go does with such a node, and the SPEC the property text gives.  The harness
-   (harness/c13.py: generic_cases) runs both against the implementation.  Lemmas: Class/CBOGenericProofs.v. *)
+   (harness/c13.py: generic_cases) runs both against the implementation.  Lemmas: Class/CBOGenericProofs.v.
+   (The annotation form is also an instance of Class/CBO.v: TGen1 / TGen2 with the dotted container name.) *)
 From Coq Require Import ZArith NArith List String Bool.
 From PV Require Import Class.Syntax Class.SetK Class.CBO.
 Import ListNotations.
 Open Scope N_scope.
 
-(* ast_builder.go:buildSubscript (1092-1106): the subscripted object goes to Value, the subscript expression
-   becomes ONE child (a Tuple node when several arguments are written); Left and Right stay nil.
-   What the two readers of a Subscript node in cbo.go look at: node.Right, else Children[1] when there are
-   at least two children. *)
-Record subscript_node := SubscriptNode { sn_right : option cref; sn_children : list (option cref) }.
-Definition build_subscript (container : cref) (args : list cref) : subscript_node :=
-  SubscriptNode None [match args with [a] => Some a | _ => None (* Tuple node *) end].
+(* ast_builder.go:buildSubscript: the subscripted object goes to Value, every subscript argument becomes
+   one child (fix: b2f1993; before, only the first argument was kept); Left and Right stay nil. *)
+Record subscript_node := SubscriptNode { sn_value : cref; sn_children : list cref }.
+Definition build_subscript (container : cref) (args : list cref) : subscript_node := SubscriptNode container args.
 
-(* extractClassName cbo.go:501-510, NodeSubscript case *)
-Definition extract_class_name_subscript (s : subscript_node) : option cref :=
-  match sn_right s with
-  | Some r => Some r
-  | None => match sn_children s with
-            | _ :: Some c :: _ => Some c
-            | _ => None
-            end
-  end.
+(* extractClassName cbo.go, NodeSubscript case: the class is the subscripted object (Value).
+   (Before fix: aa7c715 it read node.Right / Children[1], both absent: finding F41.) *)
+Definition extract_class_name_subscript (s : subscript_node) : option cref := extract_class_name (sn_value s).
 
 (* ---- a base class  Base[A1, ..., An] ---- *)
 Record gbase := GBase { gb_base : cref; gb_args : list cref }.
 
-(* analyzeInheritance cbo.go:184-201 on such a base *)
+(* analyzeInheritance cbo.go on such a base *)
 Definition generic_base_deps (o : cbo_options) (g : gbase) : list cref :=
   match extract_class_name_subscript (build_subscript (gb_base g) (gb_args g)) with
-  | Some r => dep_of_name o r
+  | Some r => if should_include_ref o r then [r] else []
   | None => []
   end.
 (* SPEC: the class names Base as its base class (must be counted); its type arguments may be counted too *)
@@ -44,12 +36,10 @@ Definition generic_base_required (g : gbase) : list cref := filter (fun r => neg
 Definition generic_base_allowed (g : gbase) : list cref := filter (fun r => negb (is_builtin r)) (gb_base g :: gb_args g).
 
 (* ---- an annotation  mod.Container[T1, ..., Tn] ---- *)
-(* extractTypeAnnotationDependencies cbo.go:249-256, NodeSubscript case: recurse into Right, else into Children[1] *)
+(* extractTypeAnnotationDependencies cbo.go, NodeSubscript case: recurse into the children (the type
+   arguments), not into Value (the container) *)
 Definition qualified_generic_deps (o : cbo_options) (container : cref) (args : list cref) : list cref :=
-  match extract_class_name_subscript (build_subscript container args) with
-  | Some r => dep_of_name o r
-  | None => []
-  end.
+  flat_map (dep_of_name o) (sn_children (build_subscript container args)).
 (* SPEC: the classes named inside the generic (the container is a typing construct, as in Class/CBO.v) *)
 Definition qualified_generic_spec (args : list cref) : list cref := set_of (filter (fun r => negb (is_builtin r)) args).
 
